@@ -194,6 +194,21 @@ def run(ctx):
         ctx.finding('c/rollback_to_savepoint/truncate', 'rollback_to_savepoint no longer truncates later savepoints', rts.loc)
     if 'alloc::vec::Vec::<T, A>::remove' in names or 'alloc::vec::Vec::<T, A>::clear' in names:
         ctx.finding('c/rollback_to_savepoint/destroys', 'rollback_to_savepoint removes/clears savepoints (the target savepoint must stay alive)', rts.loc)
+    # drain and truncate must lie on every successful path (an early `Ok(..)` before them keeps later savepoints alive)
+    from ..engine.paths import ok_exit_reachable
+    for callee, what in (('alloc::vec::Vec::<T, A>::truncate', 'truncating the later savepoints'), ('alloc::vec::Vec::<T, A>::drain', 'draining the change log')):
+        blocks = {i for i, t in rts.calls() if callee_name(t) == callee}
+        if blocks and ok_exit_reachable(rts, [0], blocks, loop_model=False) is not None:
+            ctx.finding(f'c/rollback_to_savepoint/bypass/{callee.rsplit("::",1)[1]}', f'rollback_to_savepoint can return Ok without {what}', rts.loc)
+    # the undo primitive removes exactly one row (rows are a multiset: equal rows may exist)
+    rr = ctx.fn(M.T + 'remove_row')
+    from .C15 import rows_mut_sites
+    kinds = {(k, c.rsplit('::', 1)[-1]) for (_, k, c, _) in rows_mut_sites(rr)}
+    ctx.instance('c/Table::remove_row', {'row_vector_operations': sorted(map(str, kinds))})
+    bad = [c for (k, c) in kinds if c in ('retain', 'drain', 'clear', 'truncate', 'dedup', 'retain_mut')]
+    if bad or not any(c in ('remove', 'swap_remove') for (_, c) in kinds):
+        ctx.finding('c/Table::remove_row/not-single', f'Table::remove_row (the undo primitive) edits the row vector with {sorted(c for _, c in kinds)}: '
+                    f'it must remove exactly one row even when equal rows exist', rr.loc)
     drts = ctx.fn(M.D + 'rollback_to_savepoint')
     dn = [callee_name(t) for _, t in drts.calls()]
     ctx.instance('c/Database::rollback_to_savepoint')
